@@ -157,6 +157,10 @@ def run(facts, rep, tier, ctx):
                "%s can also fail with %s: for some existing entries (a directory, the root) the value cannot be set although the "
                "other time stamps can" % (op, "; ".join(extra)), b.span)
     rep.floor("setter obligations", n, 12)
+    # ... and panics for no value: an assertion about how the three stamps relate makes some values unsettable (and poisons the
+    # lock for everybody else) — shared with C13
+    from . import c13 as _c13
+    _c13.sites_for(facts, rep, ctx["V"], "R19.p", lambda r: r.name in FIELD_OF)
     # metadata copies same-named fields
     b = mm.ops.get("metadata")
     if b is not None:
@@ -249,4 +253,25 @@ def run(facts, rep, tier, ctx):
         else:
             A.ob("R19.1", wa.memory, "setters not overridden (NotSupported default, nothing stored)", True, "", "")
         rep.floor("async-world timestamp obligations", k, 50)
+    # R19.3r a setter of the physical backends that answers Ok has had the OS call's own result in hand: no Result on the way from
+    # filetime to the caller is dropped, overwritten or left inside an outer wrapper (shared with C20 R20.1)
+    from ..results import ResultFlow
+    for w3 in (ws, wa):
+        if not w3.present():
+            continue
+        pops = facts.impl_methods(w3.trait.rsplit("::", 1)[1], w3.physical)
+        starts = [pops[o] for o in FIELD_OF if o in pops]
+        seen3 = set()
+        for rb in D.inter.reachable(starts, through_dyn=False).values():
+            for cb3 in D.inter.code_bodies(rb):
+                if cb3.id in seen3 or not cb3.file.startswith("src/"):
+                    continue
+                seen3.add(cb3.id)
+                rf3 = ResultFlow(facts, cb3)
+                bad3 = [("inner Result of `%s` never looked at" % nm, ln) for _, nm, ln in rf3.nested_discards()] + \
+                       [("Result `%s` overwritten unexamined" % nm, ln) for _, nm, ln in rf3.overwritten_results()] + \
+                       [("unused result of %s" % sh, ln) for _, sh, ln in rf3.unused_results()]
+                rep.ob(("A/" if w3.asyncw else "") + "R19.3r", D.owner_id(cb3), "no Result is dropped on the way of a physical setter", not bad3,
+                       "" if not bad3 else "%s: the setter reports success although the time stamp was not stored" % bad3[0][0],
+                       bad3[0][1] if bad3 else cb3.span)
     rep.assume("the OS stores the value passed to utimensat exactly (precision/range are runtime quantities)")
